@@ -215,8 +215,8 @@ func newDriver(capacity int) *driver {
 }
 
 func (d *driver) abs(relStamp uint64) time.Time { return time.Unix(0, d.base+int64(relStamp)) }
-func (d *driver) nowRel() uint64               { return uint64(time.Now().UnixNano() - d.base) }
-func (d *driver) wv() uint64                   { return uint64(len(d.clears)) }
+func (d *driver) nowRel() uint64                { return uint64(time.Now().UnixNano() - d.base) }
+func (d *driver) wv() uint64                    { return uint64(len(d.clears)) }
 
 func (d *driver) record(o opRec, got *discovery.Resource) obsState {
 	st := d.c.State()
@@ -596,9 +596,9 @@ func directed() []*driver {
 		s2 := d.nowRel()
 		d.add(1, []uint64{3}, &s2, &val{3, 0}, "") // overwrite: queue (1,[1])
 		d.add(2, []uint64{2}, &s2, &val{4, 0}, "") // overwrite: queue (2,[2]); order 2,1
-		d.get(1)                                    // order 1,2
-		d.flush()                                   // Get(1) then Get(2): order 2,1
-		d.add(3, nil, &s2, &val{5, 0}, "")          // evicts 1
+		d.get(1)                                   // order 1,2
+		d.flush()                                  // Get(1) then Get(2): order 2,1
+		d.add(3, nil, &s2, &val{5, 0}, "")         // evicts 1
 		d.get(1)
 		d.get(2)
 		out = append(out, d)
